@@ -13,6 +13,7 @@ import AslProofs.NumVal
 import AslProofs.FmtShape
 import AslProofs.FmtValue
 import Gen.XdlEncGen
+import AslProofs.XdlIntPath
 /-!
 # C05 — JSON (and XDL) encoding round-trips every Var
 
@@ -151,6 +152,35 @@ theorem float_roundtrip (g : Nat → UInt64 → Bytes) (atof : Bytes → UInt64)
   have hp : precF m = 9 := by simp [precF, hs]
   obtain ⟨r, hr, hd⟩ := real_roundtrip g m hj hg 9 b hb (.flt b) (Or.inr ⟨rfl, hp.symm⟩)
   exact ⟨r, hr, hd, h2 b hb hnz hfl⟩
+
+/-- the number clause by VALUE for every finite double, including those that come back through the decoder's int path
+    (integral doubles such as 5.0 or 1e8 are written `5`, `100000000`; −0.0 is written `-0`): in the default mode the
+    decoder returns either the 17-digit lexeme through `atof`, or an int that IS the decimal value of that lexeme, and
+    that value is the double's value correctly rounded to 17 digits (H1v; `fmtG_H1v` for the formatter the driver runs).
+    A zero (either sign) that comes back as an int comes back as 0. -/
+theorem double_roundtrip_value (g : Nat → UInt64 → Bytes) (hg : H1v g) (m : Mode) (hj : m.json = true)
+    (hs : m.simple = false) (hf : m.shortf = false) (b : UInt64) (hb : dFinite b = true) :
+    ∃ r, decode (encode g m (.num b)) = some (some r) ∧
+      (r = .num (g 17 b) ∨ ∃ i : Int, r = .int i ∧ (i : Rat) = NumVal.lexVal (g 17 b)) ∧
+      NumVal.RoundedTo 17 (NumVal.dval b) (NumVal.lexVal (g 17 b)) ∧
+      (NumVal.dval b = 0 → ∀ i : Int, r = .int i → i = 0) := by
+  have hp : precD m = 17 := by simp [precD, hs, hf]
+  obtain ⟨r, hr, hd⟩ := real_roundtrip g m hj (H1_of_H1v hg) 17 b hb (.num b) (Or.inl ⟨rfl, hp.symm⟩)
+  obtain ⟨hn, hv⟩ := hg 17 b hb
+  have hv' : NumVal.RoundedTo 17 (NumVal.dval b) (NumVal.lexVal (g 17 b)) := by simpa using hv
+  have hval := AslProofs.Num.decodedAs_value (g 17 b) r hn hd
+  refine ⟨r, hr, hval, hv', ?_⟩
+  intro hz i hi
+  rcases hval with h | ⟨j, hj', hjv⟩
+  · rw [h] at hi; cases hi
+  · rw [hj'] at hi
+    have : j = i := by injection hi
+    subst this
+    rw [hv'.1 hz] at hjv
+    exact_mod_cast hjv
+
+/-- non-vacuity: 5.0 is a finite double, the driver's formatter satisfies H1v, and writes it `5` -/
+example : dFinite 0x4014000000000000 = true ∧ H1v AslModel.Dtoa.fmtG := ⟨by decide, AslProofs.Fmt.fmtG_H1v⟩
 
 /-! ### statements about libc kept in full (exercised by K and the python oracle on every generated number) -/
 
